@@ -250,8 +250,37 @@ func runC15(c *Ctx) {
 		c.Unresolved("C15-R3", "waddrmgr.PutSyncedTo")
 	}
 
+	// the height -> hash index entry is (over)written unconditionally: after a reorg the same height gets a new hash
+	if abh := p.Func("waddrmgr", "", "addBlockHash"); abh != nil {
+		isPut := func(i ssa.Instruction) bool {
+			call, ok := i.(*ssa.Call)
+			return ok && call.Call.IsInvoke() && call.Call.Method.Name() == "Put"
+		}
+		bad := p.mustPassToSuccess(abh, nil, isPut, nil)
+		c.Check("C15-R3", "addBlockHash-always-writes", abh.Pos(), bad == nil,
+			"addBlockHash can succeed without writing the entry (e.g. when one already exists for the height): after a reorg the remembered hash of that height stays the orphaned block's, later disconnects are ignored as stale and the startup walk compares against the wrong chain")
+	} else {
+		c.Unresolved("C15-R3", "waddrmgr.addBlockHash")
+	}
+
 	// ---------- R4 startup loop ----------
-	if sw := walletFn(c, "C15-R4", "syncWithChain"); sw != nil {
+	checkStartupWalk(c, "C15-R4")
+
+	// ---------- R5 ----------
+	checkMirrorAfterDisk(c, "C15-R5", []mirrorSpec{{"waddrmgr", "Manager", "SetSyncedTo", "syncedTo", "syncState", []string{"PutSyncedTo"}}})
+}
+
+// checkStartupWalk: the offline-reorg detection loop of syncWithChain (shared: C15-R4, C02-R4, C06-R1).
+func checkStartupWalk(c *Ctx, rule string) {
+	p := c.P
+	setSynced := p.Func("waddrmgr", "Manager", "SetSyncedTo")
+	if setSynced == nil {
+		c.Unresolved(rule, "waddrmgr.Manager.SetSyncedTo")
+		return
+	}
+	isSet := func(ins ssa.Instruction) bool { return p.isCallTo(ins, setSynced) }
+	// ---------- R4 startup loop ----------
+	if sw := walletFn(c, rule, "syncWithChain"); sw != nil {
 		found := 0
 		for _, fn := range Closures(sw) {
 			var eq *ssa.Call
@@ -268,7 +297,7 @@ func runC15(c *Ctx) {
 			loops := loopsOf(fn)
 			l := innermostLoopOf(loops, eq)
 			if l == nil {
-				c.Check("C15-R4", "startup-walk-is-a-loop", eq.Pos(), false, "the stored-vs-backend hash comparison at startup is not inside a loop")
+				c.Check(rule, "startup-walk-is-a-loop", eq.Pos(), false, "the stored-vs-backend hash comparison at startup is not inside a loop")
 				continue
 			}
 			// stamp stores (Hash, Height) dominate the equality test
@@ -279,7 +308,7 @@ func runC15(c *Ctx) {
 						ok = true
 					}
 				}
-				c.Check("C15-R4", "stamp-recorded-before-equality-test:"+field, eq.Pos(), ok,
+				c.Check(rule, "stamp-recorded-before-equality-test:"+field, eq.Pos(), ok,
 					"the startup rollback loop tests for the common block before recording that block as the rollback stamp ("+field+"): the stamp ends one block above the fork point")
 			}
 			// the value stored to Hash is the backend hash, Height the loop variable
@@ -302,7 +331,7 @@ func runC15(c *Ctx) {
 					}
 				}
 			}
-			c.Check("C15-R4", "walk-stops-only-at-common-block", eq.Pos(), okExit, "the startup walk can stop (without error) at a height whose hash was not compared equal")
+			c.Check(rule, "walk-stops-only-at-common-block", eq.Pos(), okExit, "the startup walk can stop (without error) at a height whose hash was not compared equal")
 			// step is -1
 			okStep := false
 			for _, ins := range l.Header.Instrs {
@@ -328,7 +357,7 @@ func runC15(c *Ctx) {
 					}
 				}
 			}
-			c.Check("C15-R4", "walk-descends-by-one", eq.Pos(), okStep, "the startup walk does not descend one height at a time")
+			c.Check(rule, "walk-descends-by-one", eq.Pos(), okStep, "the startup walk does not descend one height at a time")
 			// stamp/rollback only if a mismatch was seen: SetSyncedTo guarded by the rollback flag being true
 			for _, ci := range callsOf(fn) {
 				call, ok := ci.(*ssa.Call)
@@ -361,14 +390,12 @@ func runC15(c *Ctx) {
 					}
 					return trueStores > 0
 				})
-				c.Check("C15-R4", "rollback-only-after-mismatch", call.Pos(), okFlag, "the startup code re-stamps / rolls back although no stored hash differed from the backend's")
+				c.Check(rule, "rollback-only-after-mismatch", call.Pos(), okFlag, "the startup code re-stamps / rolls back although no stored hash differed from the backend's")
 			}
 		}
-		c.Floor("C15-R4", "startup stored-vs-backend comparisons", found, 1)
+		c.Floor(rule, "startup stored-vs-backend comparisons", found, 1)
 	}
 
-	// ---------- R5 ----------
-	checkMirrorAfterDisk(c, "C15-R5", []mirrorSpec{{"waddrmgr", "Manager", "SetSyncedTo", "syncedTo", "syncState", []string{"PutSyncedTo"}}})
 }
 
 func freeVarStoreInstrsAll(addr ssa.Value) []*ssa.Store {
